@@ -219,6 +219,23 @@ Fixpoint last_set (init : option bool) (ops : list tr_op) : option bool :=
   | TCheck :: r => last_set (match init with Some b => Some b | None => None end) r
   end.
 
+(* after a return to auto-detection: the first check performs the detection (and warns iff it fails), every
+   later check uses the remembered result silently *)
+Lemma tr_warns_after_reset detect s ops :
+  Forall (fun o => o = TCheck) ops ->
+  tr_warns detect s (TSet None :: TCheck :: ops) = false :: negb detect :: map (fun _ => false) ops.
+Proof.
+  intros H. cbn [tr_warns tr_warn tr_step fst]. do 2 f_equal.
+  induction H as [|o ops Ho _ IH]; [reflexivity|]. subst o. cbn [tr_warns tr_warn tr_step fst map]. f_equal. exact IH.
+Qed.
+Lemma tr_warns_after_set detect s v ops :
+  Forall (fun o => o = TCheck) ops ->
+  tr_warns detect s (TSet (Some v) :: ops) = false :: map (fun _ => false) ops.
+Proof.
+  intros H. cbn [tr_warns tr_warn tr_step fst]. f_equal.
+  induction H as [|o ops Ho _ IH]; [reflexivity|]. subst o. cbn [tr_warns tr_warn tr_step fst map]. f_equal. exact IH.
+Qed.
+
 Lemma tr_run_app detect s a b :
   tr_run detect s (a ++ b) =
   tr_run detect s a ++ tr_run detect (fold_left (fun st o => fst (tr_step detect st o)) a s) b.
